@@ -160,7 +160,17 @@ def check_memo_keys(ctx, rule: str, relpaths, min_sites: int = 1) -> int:
                             continue
                         passed_whole = [x for x in walk_local(fn) if isinstance(x, ast.Name) and x.id == p_ and isinstance(x.ctx, ast.Load) and isinstance(getattr(x, "_parent", None), ast.Call)
                                         and x in x._parent.args and not (isinstance(x._parent.func, ast.Name) and x._parent.func.id in ("len", "isinstance", "type"))]
-                        if passed_whole:
+                        recv_whole = [x for x in walk_local(fn) if isinstance(x, ast.Name) and x.id == p_ and isinstance(x.ctx, ast.Load) and id(x) not in key_nodes
+                                      and isinstance(getattr(x, "_parent", None), ast.Attribute) and isinstance(getattr(x._parent, "_parent", None), ast.Call) and x._parent._parent.func is x._parent]
+                        ann = next((src(a.annotation) for a in fn.args.args + fn.args.kwonlyargs if a.arg == p_ and a.annotation is not None), "")
+                        if (passed_whole or recv_whole) and all(pr.split(".")[-1] == "id" for pr in proj) and "DerivationTree" in ann:
+                            use = (passed_whole or recv_whole)[0]
+                            ctx.viol(rule + "-tree-id", f"{rel}:{q}", f"{cache}[{src(key)[:40]}] keyed by a tree id", site(node),
+                                     f"the memo {cache} is keyed by the id of the tree `{p_}` but caches something computed from the tree's structure (`{src(use._parent if use in passed_whole else use._parent._parent)[:60]}`): "
+                                     "replace_path / substitute keep the id of every ancestor of the changed subtree, so a tree derived from one that was already seen has the same id and gets the stale entry")
+                            continue
+                        if passed_whole or recv_whole:
+                            passed_whole = passed_whole or [recv_whole[0]._parent]
                             from .core import Unrecognised
 
                             raise Unrecognised(rule, f"{rel}:{q}", f"the memo {cache} is keyed only by the projections {proj} of the parameter `{p_}`, but the cached computation receives `{p_}` whole "
